@@ -371,17 +371,19 @@ Section Spec.
     | inr _ => SErr
     end.
 
-  (* min: the FIRST minimal element; max: the LAST maximal element; null on [] *)
+  (* min: the FIRST minimal element (the candidate is replaced only by a strictly smaller element);
+     max: the LAST maximal element (the candidate is kept only while strictly greater); null on [] *)
+  Definition mgtb (a b : mv) : bool := match mcmp a b with Gt => true | _ => false end.
   Definition s_min (a : mv) : sres :=
     match a with
     | MArr [] => SVal MNull
-    | MArr (x :: r) => SVal (fold_left (fun m y => if mltb y m then y else m) r x)
+    | MArr (x :: r) => SVal (fold_left (fun m y => if mgtb m y then y else m) r x)
     | _ => SErr
     end.
   Definition s_max (a : mv) : sres :=
     match a with
     | MArr [] => SVal MNull
-    | MArr (x :: r) => SVal (fold_left (fun m y => if mltb y m then m else y) r x)
+    | MArr (x :: r) => SVal (fold_left (fun m y => if mgtb m y then m else y) r x)
     | _ => SErr
     end.
   (* sort: the stable ordering of the elements (merge-free definition: insertion of each element
@@ -478,6 +480,70 @@ Section Spec.
         end
     end.
 
+  (* slices .[s:e]: integer bounds (null = open), negative counted from the end, clamped to the value;
+     strings are sliced by code points.  Fractional bounds are outside this spec. *)
+  Definition s_bound (len : Z) (dflt : Z) (b : mv) : option (option Z) :=
+    (* None: not a bound (error); Some None: outside the spec; Some (Some i) *)
+    match b with
+    | MNull => Some (Some dflt)
+    | MInt _ => match as_index b with
+                | Some i => Some (Some (Z.max 0 (Z.min len (if i <? 0 then i + len else i))))
+                | None => None
+                end
+    | MFlt _ => Some None
+    | _ => None
+    end.
+  Definition s_slice (a e s : mv) : option sres :=
+    let go (len : Z) (cut : Z -> Z -> mv) : option sres :=
+      match s_bound len 0 s with
+      | None => Some SErr
+      | Some None => None
+      | Some (Some st) =>
+          match s_bound len len e with
+          | None => Some SErr
+          | Some None => None
+          | Some (Some en) => Some (SVal (cut st (Z.max st en)))
+          end
+      end in
+    match a with
+    | MNull => Some (SVal MNull)
+    | MArr l => go (mlen l) (fun st en => MArr (firstn (Z.to_nat (en - st)) (skipn (Z.to_nat st) l)))
+    | MStr t => if valid_utf8 t then
+                  go (mlen (runes t)) (fun st en => MStr (encode_runes (firstn (Z.to_nat (en - st)) (skipn (Z.to_nat st) (runes t)))))
+                else None
+    | _ => Some SErr
+    end.
+  (* .[k] *)
+  Definition s_index2 (a k : mv) : option sres :=
+    match k with
+    | MStr s => match a with
+                | MNull => Some (SVal MNull)
+                | MObj m => Some (SVal (match mget m s with Some v => v | None => MNull end))
+                | _ => Some SErr
+                end
+    | MInt _ | MFlt _ =>
+        match a, as_index k with
+        | MNull, _ => Some (SVal MNull)
+        | MArr l, Some i => let j := if i <? 0 then i + mlen l else i in
+                            Some (SVal (if (0 <=? j) && (j <? mlen l) then nth (Z.to_nat j) l MNull else MNull))
+        | MStr t, Some i => if valid_utf8 t then
+                              let rs := runes t in
+                              let j := if i <? 0 then i + mlen rs else i in
+                              Some (SVal (if (0 <=? j) && (j <? mlen rs) then MStr (encode_rune (nth (Z.to_nat j) rs 0%N)) else MNull))
+                            else None
+        | _, _ => Some SErr
+        end
+    | MObj m => match a with
+                | MNull => Some (SVal MNull)
+                | _ => match mget m (codes "start"), mget m (codes "end") with
+                       | Some s, Some e => s_slice a e s
+                       | _, _ => Some SErr
+                       end
+                end
+    | MArr _ => None                 (* sub-array search: see indices *)
+    | _ => Some SErr
+    end.
+
   Definition s_tonumber (a : mv) : option sres :=
     match a with MInt _ | MFlt _ => Some (SVal a) | MStr _ => None | _ => Some SErr end.
   Definition s_abs (a : mv) : sres :=
@@ -530,7 +596,9 @@ Section Spec.
         else if is "_lesseq" then Some (s_cmp (fun c => match c with Gt => false | _ => true end) x y)
         else if is "_greatereq" then Some (s_cmp (fun c => match c with Lt => false | _ => true end) x y)
         else if is "_alternative" then Some (SVal (match x with MNull | MBool false => y | _ => x end))
+        else if is "_index" then s_index2 x y
         else None
+    | [x; y; z] => if is "_slice" then s_slice x y z else None
     | _ => None
     end)%string.
 End Spec.
